@@ -40,6 +40,33 @@ theorem Entry.not_dir_of_regular {e : Entry} (h : e.isRegular = true) : e.isDir 
   have h' : e.typ = tReg ∨ e.typ = tRegA := by simpa [Entry.isRegular] using h
   rcases h' with h' | h' <;> simp [Entry.isDir, h'] <;> decide
 
+theorem Entry.not_typeX_of_symlink {e : Entry} (h : e.isSymlink = true) : e.isTypeX = false := by
+  have h' : e.typ = tSymlink := by simpa [Entry.isSymlink] using h
+  simp [Entry.isTypeX, h']; decide
+
+theorem Entry.not_typeX_of_dir {e : Entry} (h : e.isDir = true) : e.isTypeX = false := by
+  have h' : e.typ = tDir := by simpa [Entry.isDir] using h
+  simp [Entry.isTypeX, h']; decide
+
+theorem Entry.not_typeX_of_regular {e : Entry} (h : e.isRegular = true) : e.isTypeX = false := by
+  have h' : e.typ = tReg ∨ e.typ = tRegA := by simpa [Entry.isRegular] using h
+  rcases h' with h' | h' <;> simp [Entry.isTypeX, h'] <;> decide
+
+theorem Entry.not_symlink_of_typeX {e : Entry} (h : e.isTypeX = true) : e.isSymlink = false := by
+  cases hs : e.isSymlink with
+  | false => rfl
+  | true => rw [Entry.not_typeX_of_symlink hs] at h; cases h
+
+theorem Entry.not_dir_of_typeX {e : Entry} (h : e.isTypeX = true) : e.isDir = false := by
+  cases hs : e.isDir with
+  | false => rfl
+  | true => rw [Entry.not_typeX_of_dir hs] at h; cases h
+
+theorem Entry.not_regular_of_typeX {e : Entry} (h : e.isTypeX = true) : e.isRegular = false := by
+  cases hs : e.isRegular with
+  | false => rfl
+  | true => rw [Entry.not_typeX_of_regular hs] at h; cases h
+
 /-! ## `newUnpackInfo` -/
 
 /-- when `NewUnpackInfo` succeeds the path is `entryPath` (it does not depend on the filesystem)
@@ -170,6 +197,13 @@ theorem unpackEntry_info_none (st : UState) (e : Entry) (body : Str) (be : Bool)
     unpackEntry cwd allow priv dst st e body be = (st, some .illegal) := by
   simp [unpackEntry, hn, h]
 
+/-- an extended (pax) header record that `NewUnpackInfo` accepts is skipped: the state is unchanged,
+not even the parent directories of its name are created -/
+theorem unpackEntry_typeX (st : UState) (e : Entry) (body : Str) (be : Bool) (path : Str)
+    (hn : e.name ≠ []) (hx : e.isTypeX = true) (hi : newUnpackInfo st.fs dst e = some path) :
+    unpackEntry cwd allow priv dst st e body be = (st, none) := by
+  simp [unpackEntry, hn, hi, hx]
+
 end step
 
 /-- Everything `unpackEntry` can do with a named entry that `NewUnpackInfo` accepted (with path
@@ -188,8 +222,7 @@ inductive StepOutcome (cwd : Str) (allow : List Str) (dst : Str) (st : UState) (
       StepOutcome cwd allow dst st e be path ({ fs := fs', dirs := st.dirs }, none)
   | dirOk (fs' : FS) : e.isSymlink = false → e.isDir = true →
       StepOutcome cwd allow dst st e be path ({ fs := fs', dirs := st.dirs ++ [(path, e.mode, e.mtime)] }, none)
-  | otherOk (fs' : FS) : e.isSymlink = false → e.isDir = false → e.isRegular = false →
-      StepOutcome cwd allow dst st e be path ({ fs := fs', dirs := st.dirs }, none)
+  | typeX : e.isTypeX = true → StepOutcome cwd allow dst st e be path (st, none)
   | fileOk (fs' : FS) : e.isSymlink = false → e.isDir = false → e.isRegular = true → be = false →
       StepOutcome cwd allow dst st e be path ({ fs := fs', dirs := st.dirs }, none)
 
@@ -201,6 +234,10 @@ theorem unpackEntry_outcome (st : UState) (e : Entry) (body : Str) (be : Bool) (
   unfold unpackEntry
   rw [if_neg hn]
   simp only [hi]
+  by_cases hx : e.isTypeX = true
+  · rw [if_pos hx]; exact .typeX hx
+  rw [if_neg hx]
+  have hx' : e.isTypeX = false := by simpa using hx
   rcases hm : FS.mkdirAll st.fs nowT (mkdirAllFuel (pathDir path)) (pathDir path) 0o755 with ⟨fs1, _ | err⟩
   · simp only []
     by_cases hs : e.isSymlink = true
@@ -226,7 +263,9 @@ theorem unpackEntry_outcome (st : UState) (e : Entry) (body : Str) (be : Bool) (
       · rw [if_neg hd]
         have hd' : e.isDir = false := by simpa using hd
         cases hreg : e.isRegular with
-        | false => exact .otherOk _ hs' hd' hreg
+        | false =>
+          have hsup := (newUnpackInfo_some hi).2
+          simp [Entry.supported, hs', hd', hreg, hx'] at hsup
         | true =>
           simp only [Bool.not_true, Bool.false_eq_true, if_false]
           split
@@ -271,6 +310,7 @@ theorem unpackEntry_regular_bodyErr (st : UState) (e : Entry) (body : Str)
     right
     have hs := Entry.not_symlink_of_regular hreg
     have hd := Entry.not_dir_of_regular hreg
+    have hx := Entry.not_typeX_of_regular hreg
     have ho := unpackEntry_outcome cwd allow priv dst st e body true path hn hi
     generalize unpackEntry cwd allow priv dst st e body true = r at ho ⊢
     cases ho <;> simp_all
@@ -324,7 +364,7 @@ theorem unpackEntry_dirs (st st' : UState) (e : Entry) (body : Str) (be : Bool)
         have : ¬ e.isDir = true := fun hd => by simp [Entry.not_symlink_of_dir hd] at hs
         simp [this]
       | dirOk fs' hs hd => simp [hn, hd, hp]
-      | otherOk fs' hs hd hr => simp [hd]
+      | typeX hx => simp [Entry.not_dir_of_typeX hx]
       | fileOk fs' hs hd hr hb => simp [hd]
 
 /-- why a step reports an illegal slug -/
@@ -352,7 +392,7 @@ theorem unpackEntry_illegal_cause (st : UState) (e : Entry) (body : Str) (be : B
       | io => simp at h
       | linkOk => simp at h
       | dirOk => simp at h
-      | otherOk => simp at h
+      | typeX => simp at h
       | fileOk => simp at h
 
 /-- a named symlink entry that lets the loop continue passed the link test of `Unpack`, with the
@@ -372,7 +412,7 @@ theorem unpackEntry_link_accepted (st st' : UState) (e : Entry) (body : Str) (be
     cases ho with
     | linkOk fs' ln _ hr hv => exact ⟨ln, rfl, hr, hv⟩
     | dirOk fs' hs' _ => rw [hs] at hs'; cases hs'
-    | otherOk fs' hs' _ _ => rw [hs] at hs'; cases hs'
+    | typeX hx => rw [Entry.not_typeX_of_symlink hs] at hx; cases hx
     | fileOk fs' hs' _ _ _ => rw [hs] at hs'; cases hs'
 
 /-- a named symlink entry whose link test fails never lets the loop continue: the step is an
